@@ -1,6 +1,6 @@
 //@ assume: siphash_block is an uninterpreted function of (keys, nonce) -- SipHash-2-4 itself is outside; CuckooParams keeps its real fields; Proof is reduced to its nonce vector; global::proofsize() is an uninterpreted constant in 1..=2^20
 //@ assume: T6 rewrites: `vec![x; n]` => helper vec_filled (n copies of x); every `Err(Error::Verification("<message>".to_owned()))` => `Err(Error::<Kind>)`, one abstract kind per message, so that the contract can say WHY the input checks fail; integer literal types made explicit; `for n in 0..size` loops get spliced invariants
-//@ assume: termination of the two cycle-following loops is NOT proved: exec_allows_no_decreases_clause (it follows from the circular lists, which is proved, and from the walk being injective)
+//@ assume: termination IS proved (no exec_allows_no_decreases_clause): the outer walk visits distinct endpoints (injective step + pigeonhole), so it takes fewer than 2*size steps; the inner walk goes once round the circular bucket list (measure: not-yet-wrapped flag, then the cursor)
 //@ assume: decided here, for ANY proof size and any siphash outputs (no bound): CuckaroozContext::verify never indexes out of range, and it returns Ok ONLY IF the 2*size edge endpoints form one simple cycle through all `size` edges: starting from endpoint 0 and repeatedly moving to the UNIQUE other endpoint carrying the same node and then to the other end of that edge, the walk comes back to endpoint 0 for the first time after exactly `size` steps, every node met on the way has exactly two endpoints (no branch is skipped), and all visited endpoints are distinct. Every error except the xor pre-check carries its reason: wrong-length / edge-too-big / not-ascending are returned only for that reason; 'branch' only if three distinct endpoints share a node; 'dead end' only if some endpoint has no partner; 'too short' only if the walk from endpoint 0 closes after m != size steps -- each of which is incompatible with the endpoints forming one simple cycle through all edges. (Not decided: that the xor pre-check 'endpoints don't match up' never fires on a simple cycle -- the pairing argument over xor -- so completeness is decided up to that check.)
 //@ assume: 64-bit target
 //@ assume: assumed: u64::leading_zeros(x) >= 1 for x < 2^63 (std intrinsic; only used to show `1 + mask` cannot overflow)
@@ -161,10 +161,12 @@ proof fn lemma_inner_step(uvs: Seq<u64>, mask: u64, i: int, k: int, j: int, wrap
             k2 != i && uvs[k2] != uvs[i] ==> minv(uvs, mask, i, k2, j, wrapped || k2 >= k),
             k2 != i && uvs[k2] == uvs[i] && j == i ==> minv(uvs, mask, i, k2, k2, wrapped || k2 >= k),
             k2 != i ==> !exam(uvs, mask, i, k, wrapped, k2),
+            wrapped ==> k2 < k,
 {
     let b = bk(uvs[i], mask);
     let w2 = wrapped || k2 >= k;
     assert(bk(uvs[k], mask) == b);
+    if wrapped && k2 >= k { assert(bk(uvs[i], mask) != b); }
     if k2 != i {
         // k2 is the cyclic predecessor of k: it has not been compared yet
         if k2 < k { if wrapped && k2 < i { assert(bk(uvs[i], mask) != b); } }
@@ -279,7 +281,6 @@ pub open spec fn filled(uvs: Seq<u64>, p: CuckooParams, nonces: Seq<u64>, upto: 
 pub struct CuckaroozContext { pub params: CuckooParams }
 impl CuckaroozContext {
 //@ extract core/src/pow/cuckarooz.rs :: impl PoWContext for CuckaroozContext::verify
-//@   attr: #[verifier::exec_allows_no_decreases_clause]
 //@   sigrewrite `fn verify(&self, proof: &Proof)` => `pub fn verify(&self, proof: &Proof)`
 //@   rewrite `return Err(Error::Verification("wrong cycle length".to_owned()));` => `return Err(Error::WrongLen);`
 //@   rewrite `return Err(Error::Verification("edge too big".to_owned()));` => `return Err(Error::TooBig);`
@@ -331,9 +332,10 @@ impl CuckaroozContext {
 //@+    invariant_except_break
 //@+        size == proof.nonces@.len(), filled(uvs@, self.params, proof.nonces@, 2 * size), uvs@.len() == 2 * size,
 //@+        nn == 2 * size, 1 <= size <= 0x10_0000, mixed_ok(uvs@, mask, head@, prev@, nn, nn),
-//@+        walk_ok(uvs@, path, js), path.len() == n + 1, path.last() == i, uvs@ == endpoints(self.params, proof.nonces@),
+//@+        walk_ok(uvs@, path, js), path.len() == n + 1, path.last() == i, uvs@ == endpoints(self.params, proof.nonces@), n < nn,
 //@+    ensures
 //@+        walk_ok(uvs@, path, js), path.len() == n, uniq(uvs@, path.last(), jlast), jlast != path.last(), xor1(jlast) == 0,
+//@+    decreases nn - n,
 //@   after `j = i;`:
 //@+    let ghost mut wrapped: bool = false;
 //@+    proof { lemma_pigeon(path, nn); }
@@ -344,6 +346,7 @@ impl CuckaroozContext {
 //@+        minv(uvs@, mask, i as int, k as int, j as int, wrapped), uvs@ == endpoints(self.params, proof.nonces@),
 //@+    ensures
 //@+        uniq(uvs@, i as int, j as int), j < nn,
+//@+    decreases (if wrapped { 0int } else { 1int }), k,
 //@   before `k = prev[k];`:
 //@+    let ghost k0 = k;
 //@   after `k = prev[k];`:
@@ -355,7 +358,7 @@ impl CuckaroozContext {
 //@+    proof { assert(dead_end(uvs@, i as int)); }
 //@   before `i = j ^ 1;`:
 //@+    proof { lemma_xor1(j); jlast = j as int;
-//@+            if xor1(j as int) != 0 { lemma_walk_extend(uvs@, path, js, j as int); path = path.push(xor1(j as int)); js = js.push(j as int); } }
+//@+            if xor1(j as int) != 0 { lemma_walk_extend(uvs@, path, js, j as int); path = path.push(xor1(j as int)); js = js.push(j as int); lemma_pigeon(path, nn); } }
 //@   before `if n == self.params.proof_size {`:
 //@+    proof {
 //@+        assert(uvs@ =~= endpoints(self.params, proof.nonces@));
